@@ -28,7 +28,7 @@ def setup(common=None):
     _U["basedims"] = [d.length, d.time, d.temperature, d.mass, d.current_mks]
 
 
-UNAME = {"la": "la", "lb": "lb", "ta": "ta", "K": "K", "oc": "oc", "tl": "T*la", "na": "dimensionless", "J": "J", "Hz": "Hz", "bad": "nosuchunit"}
+UNAME = {"la": "la", "lb": "lb", "ta": "ta", "K": "K", "oc": "oc", "tl": "T*la", "na": "dimensionless", "lr": "lb/la", "J": "J", "Hz": "Hz", "bad": "nosuchunit"}
 DT = {"f8": "float64", "f4": "float32", "f2": "float16", "i8": "int64", "i4": "int32", "i2": "int16", "i1": "int8"}
 
 
